@@ -45,6 +45,7 @@ LEVEL = {
                    "given history) — that needs execution or state exploration.",
     "technique": "static analysis: structural sibling comparison with stdlib source + finite-domain abstract evaluation",
 }
+LEVEL["decided"] += " (R10.7) the descriptor decides 'looked up on the class' by `instance is None` only."
 
 
 def run(ctx) -> None:
